@@ -57,3 +57,18 @@ Theorem C05_same_operations_same_state :
       fold_left apply l1 s = fold_left apply l2 s.
 Proof. exact executable_permutations_agree. Qed.
 Print Assumptions C05_same_operations_same_state.
+
+(* (5) what a client executes out of a response is a suffix of the response's foreign operations in their order — never
+   an own operation, a reordering or a hole — and all of them whenever the checkpoint arithmetic counts that many *)
+Theorem C05_executed_is_suffix_of_foreign : forall own c r ops,
+  incoming own false c r = Some ops ->
+  exists pre, filter (fun o => negb (str_eqb (o_cuid (op_id o)) own)) (p_ops r) = pre ++ ops.
+Proof. exact incoming_is_suffix. Qed.
+Print Assumptions C05_executed_is_suffix_of_foreign.
+Theorem C05_executed_is_all_when_counted : forall own c r,
+  let others := filter (fun o => negb (str_eqb (o_cuid (op_id o)) own)) (p_ops r) in
+  (Z.of_nat (length others) <=
+   wrap64 (Z.of_N (u64sub (u64sub (sseq (p_cp r)) (sseq c)) (u64sub (cseq (p_cp r)) (cseq c)))))%Z ->
+  incoming own false c r = Some others.
+Proof. exact incoming_takes_all. Qed.
+Print Assumptions C05_executed_is_all_when_counted.
